@@ -42,6 +42,7 @@ mod t6w3;
 mod t6r3;
 mod t6w4;
 mod t6r4;
+mod t6r4b;
 
 const FEATURES: &[&str] = &["aes-crypto", "bzip2", "deflate", "time", "zstd"];
 
@@ -3949,6 +3950,9 @@ fn main() {
                     "afn" => t6w2::translate_afn(&reg, &failed, &all, name),
                     "hfn" => t6r3::translate_hfn(&reg, &failed, &all, name),
                     "efn" => t6r4::translate_efn(&all, name),
+                    "denum" => t6r4b::translate_denum(&all, name),
+                    "dstruct" => t6r4b::translate_dstruct(&all, name),
+                    "dfn" => t6r4b::translate_dfn(&asts, &all, name),
                     "struct" | "sstruct" => {
                         for it in &all {
                             if let Item::Struct(st) = it {
